@@ -1,6 +1,7 @@
 import Sekai.Driver.NetProps
 import Sekai.Driver.Perm
 import Sekai.Driver.Gov
+import Sekai.Driver.Mint
 /-! `sekai-model`: the model side of the correspondence check. One op per input line
 (`<domain> <op> <args…>`), one canonical observation per output line. Core Lean only. -/
 open Sekai
@@ -16,6 +17,7 @@ def dispatch (w : World) (line : String) : World × String :=
   | "props" :: rest => let (s, o) := Driver.NetProps.step w.props rest; ({ w with props := s }, o)
   | "perm" :: rest => let (s, o) := Driver.Perm.step w.perm rest; ({ w with perm := s }, o)
   | "gov" :: rest => let (s, o) := Driver.Gov.step w.perm.s w.gov rest; ({ w with gov := s }, o)
+  | "mint" :: rest => (w, Driver.Mint.step rest)
   | ["reset"] => ({}, "ok")
   | [] => (w, "")
   | _ => (w, "bad-op")
